@@ -197,27 +197,27 @@ where
     type Item = usize;
 
     fn next(&mut self) -> Option<Self::Item> {
-        let (Reverse(w_prev), u) = self.heap.pop()?;
-        let dist_ptr = self.dist.as_mut_ptr();
+        loop {
+            let (Reverse(w_prev), u) = self.heap.pop()?;
+            let dist_ptr = self.dist.as_mut_ptr();
 
-        for (v, w) in self.digraph.out_neighbors_weighted(u) {
-            let w_next = w + w_prev;
-            let dist_v = unsafe { dist_ptr.add(v) };
+            for (v, w) in self.digraph.out_neighbors_weighted(u) {
+                let w_next = w + w_prev;
+                let dist_v = unsafe { dist_ptr.add(v) };
 
-            unsafe {
-                if w_next < *dist_v {
-                    *dist_v = w_next;
+                unsafe {
+                    if w_next < *dist_v {
+                        *dist_v = w_next;
 
-                    self.heap.push((Reverse(w_next), v));
+                        self.heap.push((Reverse(w_next), v));
+                    }
                 }
             }
-        }
 
-        if unsafe { *dist_ptr.add(u) } == w_prev {
-            return Some(u);
+            if unsafe { *dist_ptr.add(u) } == w_prev {
+                return Some(u);
+            }
         }
-
-        None
     }
 }
 
